@@ -448,6 +448,9 @@ neu('N5-gaussian-lower-factor-column-contraction', ALLP, [
     (D + 'gaussian.py', "        pc = _compute_precision_cholesky(c, 'full')\n        self.precision_cholesky = np.reshape(pc, self.covariance.shape)",
      "        pc = np.linalg.inv(np.linalg.cholesky(c))\n        self.precision_cholesky = np.reshape(pc, self.covariance.shape)", False),
     (D + 'gaussian.py', "            '...Dd,...nD->...nd',", "            '...dD,...nD->...nd',", False)])
+# ---- R-NONE positive examples: a flipped None test sends None into arithmetic on the branch no test takes
+mut('C08-gaussian-saliency-none-flipped', 'C08', D + 'gaussian.py', "        if saliency is None:\n            covariance = np.einsum(operation, difference, difference)", "        if saliency is not None:\n            covariance = np.einsum(operation, difference, difference)", expect='R-NONE', props=['C08'])
+mut('C01-difference-plus-mean', 'C07', D + 'gaussian.py', "        difference = y - self.mean[..., None, :]", "        difference = y + self.mean[..., None, :]", expect='difference', props=['C07', 'C03'])
 # ---- whole refactorings written by independent sub-agents (14-20 behaviour-preserving edits each, verified bit-identical on
 #      600-900 inputs per patch): every check must stay silent on each of them
 for r, what in (('R1', 'mixture_model_utils / cacgmm / cACG'), ('R2', 'cwmm / cbmm / Watson / Bingham / distribution.utils'), ('R3', 'gmm / gaussian / vMF / gcacgmm / vmfcacgmm'),
